@@ -47,6 +47,10 @@ var kinds = map[string][]string{
 	"D":  {"deferlog a", "deferlog b", "deferlog c", "snapshot"},
 	"DA": {"deferlog a", "deferlog b", "deferabort", "bad"},
 	"E":  {"env V=e", "cd d", "snapshot", "exists ../f"},
+	// a background program still running when the script ends early, and a
+	// clean-up function that itself ends the test
+	"BDA": {"exec hpid pidfile 0 30 &", "waitfile pidfile", "recordpid pidfile", "deferabort", "bad"},
+	"BDK": {"exec hpid pidfile 0 30 &", "waitfile pidfile", "recordpid pidfile", "deferlog a", "deferabort", "skip"},
 }
 
 type scenario struct {
@@ -501,7 +505,7 @@ func scenarios(th bool) []scenario {
 	pairs := [][]string{
 		{"P", "F"}, {"P", "K"}, {"P", "T"}, {"F", "K"}, {"P", "P"}, {"F", "F"}, {"E", "P"}, {"E", "F"},
 		{"P", "R"}, {"R", "F"}, {"R", "R"}, {"D", "F"}, {"D", "K"}, {"DA", "P"}, {"D", "T"},
-		{"B", "P"}, {"BF", "P"}, {"BW", "P"}, {"BS", "P"}, {"B", "B"}, {"BN", "P"}, {"BM", "F"},
+		{"B", "P"}, {"BF", "P"}, {"BW", "P"}, {"BS", "P"}, {"B", "B"}, {"BN", "P"}, {"BM", "F"}, {"BDA", "P"},
 		{"X", "Y"}, {"Y", "X"},
 	}
 	for _, p := range pairs {
